@@ -131,11 +131,39 @@ def evaluate(spec, rng_seed):
     return m, obs, I, blocks
 
 
-def classify(r, blocks):
+def flow_ok(r, obs, blocks, I):
+    """third clause: the junction line of an attaching end equals the current of the pulse that sits
+    on that wire end (found in the pulse table by position in the object's block, not via end_segs)"""
+    for k, o in enumerate(r['objs']):
+        own = obs['objs'][k]['pulses']
+        for e in (0, 1):
+            if o['h%d' % e] is None or not own:
+                continue
+            other = o['h%d' % e][1]
+            # the junction pulse of this end: first / last pulse of the block joining this object and the other
+            cand = own[0] if e == 0 else own[-1]
+            g = obs['pulses'][cand]
+            if {g[0], g[1]} != {k, other} and not (other == k):
+                return 'object %d end %d: no junction pulse at the block %s' % (k, e + 1, 'start' if e == 0 else 'end')
+            ln = blocks[k]['lines']
+            x = ln[0] if e == 0 else ln[-1]
+            if x[0] != 'J':
+                return 'object %d end %d attaches to object %d but prints %r' % (k, e + 1, other, x[0])
+            if abs(x[1] - I[cand]) > 1e-9:
+                return ('junction line of object %d end %d prints %r, the pulse on that end (number %d) carries %r'
+                        % (k, e + 1, x[1], cand + 1, complex(I[cand])))
+    return None
+
+
+def classify(r, blocks, obs=None, I=None):
     bad, known = [], []
     fe = free_ends_ok(r, blocks)
     if fe:
         bad.append(fe)
+    if obs is not None:
+        fl = flow_ok(r, obs, blocks, I)
+        if fl:
+            bad.append(fl)
     for (A, eA, natt, res, res_full) in kcl_on_report(r, blocks):
         if eA == 0 and natt >= 2 and res_full is not None and abs(res_full) < 1e-9:
             known.append((A, eA, natt))
@@ -153,7 +181,7 @@ def replay(rp):
     d = Driver()
     m, obs, I, blocks = evaluate(spec, rp.get('current_seed', 1))
     r = topo.parse_model(d.ask(topo.model_request(spec, obs, m)))
-    bad, known = classify(r, blocks)
+    bad, known = classify(r, blocks, obs, I)
     print('replay ->', bad or ('known finding only' if known else 'property holds'))
     return 1 if bad else 0
 
@@ -193,7 +221,7 @@ def run(ck):
             dis.append(dict(spec=spec, why=why, current_seed=ck.seed * 7919 + i))
             continue
         # the property on the printed report (exact: integer currents print exactly)
-        bad, known = classify(r, blocks)
+        bad, known = classify(r, blocks, obs, I)
         nknown += len(known)
         if bad:
             viol.append(dict(spec=spec, observed=bad, current_seed=ck.seed * 7919 + i))
@@ -217,7 +245,7 @@ def run(ck):
             try:
                 m, obs, I, blocks = evaluate(dg['spec'], dg['current_seed'])
                 r = topo.parse_model(d.ask(topo.model_request(dg['spec'], obs, m)))
-                bad, known = classify(r, blocks)
+                bad, known = classify(r, blocks, obs, I)
             except Exception as e:
                 bad = ['report could not be evaluated: %s' % e]
             if bad:
